@@ -84,7 +84,9 @@ func c15Settings(b *impl.Binding, k int) []xsel.ContextApply {
 			xsel.WithFunction("boom", func(c xsel.Context, a ...xsel.Result) (xsel.Result, error) { panic("user function panics") }))
 	}
 	return append(base, xsel.WithVariable("v", xsel.NodeSet{}), xsel.WithVariable("ns", xsel.NodeSet{b.Root, b.Root}), xsel.WithVariable("n", xsel.String("")),
-		xsel.WithFunction("u", func(c xsel.Context, a ...xsel.Result) (xsel.Result, error) { return xsel.NodeSet{b.Root.Children()[0], b.Root}, nil }))
+		xsel.WithFunction("u", func(c xsel.Context, a ...xsel.Result) (xsel.Result, error) {
+			return xsel.NodeSet{b.Root.Children()[0], b.Root}, nil
+		}))
 }
 
 // c15One runs one input and returns "" or a description of the crash.
@@ -296,7 +298,11 @@ func C15(c *run.Check) {
 			break
 		}
 		progress := filepath.Join(tmp, k.name+".progress")
-		cmd := exec.Command(os.Args[0], "c15-worker", k.name, c.Tier, progress)
+		limit := "600"
+		if !c.Quick() {
+			limit = "1500"
+		}
+		cmd := exec.Command("timeout", limit, os.Args[0], "c15-worker", k.name, c.Tier, progress)
 		var out, serr bytes.Buffer
 		cmd.Stdout, cmd.Stderr = &out, &serr
 		err := cmd.Run()
@@ -314,6 +320,11 @@ func C15(c *run.Check) {
 				c.Add("inputs_"+k.name, tot)
 				done = true
 			}
+		}
+		if ee, ok := err.(*exec.ExitError); ok && ee.ExitCode() == 124 {
+			last, _ := os.ReadFile(progress)
+			c.Violation(c15Case{Kind: k.name, Input: "chunk near " + string(last), Detail: "did not terminate"}, fmt.Sprintf("[%s] enumeration did not finish within %s s: some call does not terminate (last chunk announced: %s)", k.name, limit, last))
+			continue
 		}
 		if err != nil || !done {
 			last, _ := os.ReadFile(progress)
